@@ -1,6 +1,6 @@
 (* Props/C05.v — property C05, the clauses about lost responses and retries.
    (The fault-in-the-middle-of-a-request clauses are in Proofs/FaultProofs.v.) *)
-From YV Require Import Proto.Server Proto.System Proofs.ProtoProofs.
+From YV Require Import Proto.Server Proto.System Proofs.ProtoProofs Proofs.FaultProofs.
 
 (* in every reachable state (lost responses and retries included) the sync of
    an honest client is accepted and acknowledges all of its pending changes *)
@@ -26,3 +26,18 @@ Theorem C05_delivery_unaffected_by_retries : forall th actors es a k,
   k_recv k = not_of a (firstn (Z.to_nat (k_cp_s k)) (s_log (y_srv y))).
 Proof. exact c04_exactly_once. Qed.
 Print Assumptions C05_delivery_unaffected_by_retries.
+
+(* a fault before anything was written leaves the server as it was: the retry is an ordinary request *)
+Theorem C05_fault_before_push_is_harmless : forall s q, push_pull (crash_before_push s q) q = push_pull s q.
+Proof. exact fault_before_push_is_harmless. Qed.
+Print Assumptions C05_fault_before_push_is_harmless.
+
+(* finding P8: a fault after the pushed changes were stored and before the client's checkpoint was;
+   the retried identical request is accepted and its change is stored a second time *)
+Theorem C05_crash_in_push_window_refuted :
+  cseqs_of p8_actor (s_log p8_without_fault) = (1 :: nil)%Z /\
+  snd (push_pull (crash_in_push_window p8_srv p8_req) p8_req) = ENone /\
+  cseqs_of p8_actor (s_log p8_after_retry) = (1 :: 1 :: nil)%Z /\
+  s_head p8_after_retry = 2%Z.
+Proof. exact crash_in_push_window_duplicates. Qed.
+Print Assumptions C05_crash_in_push_window_refuted.
